@@ -140,13 +140,15 @@ def merge_all_(
             )
             inner_subscription.disposable = subscription
 
+        @synchronized(source.lock)
         def on_completed():
             is_stopped[0] = True
             if len(group) == 1:
                 observer.on_completed()
 
+        on_error = synchronized(source.lock)(observer.on_error)
         m.disposable = source.subscribe(
-            on_next, observer.on_error, on_completed, scheduler=scheduler
+            on_next, on_error, on_completed, scheduler=scheduler
         )
         return group
 
